@@ -679,6 +679,13 @@ def r11_kdf_lengths_follow_cipher(ctx):
             continue
         n += 1
         ok = isinstance(ln, ast.Attribute) and ln.attr == 'key_bytes' and isinstance(ln.value, ast.Name) and ln.value.id in cipher_params
+        if not ok and isinstance(ln, ast.Attribute) and ln.attr == 'key_bytes':
+            # ... or the cipher taken from a parameter object (`props.cipher`), directly or through a local
+            all_params = {x.arg for x in mk.node.args.kwonlyargs + mk.node.args.args}
+            base = ln.value
+            if isinstance(base, ast.Name) and base.id not in all_params:
+                base = deref_at(mk.node, base)
+            ok = isinstance(base, ast.Attribute) and base.attr == 'cipher' and isinstance(base.value, ast.Name) and base.value.id in all_params - {'self'}
         ctx.check(
             ok,
             'C17.R10',
